@@ -1,5 +1,6 @@
 """C17 — throttling (throttle.go)."""
 import collections
+import re
 from ._util import verdict_stats as _verdict_stats
 
 # ---------------------------------------------------------------- C17
@@ -22,9 +23,13 @@ def c17_stats(cases, model):
     for c in cases:
         for o, i in zip(c["ops"], c.get("impl") or []):
             f, g = o.split(), i.split()
-            if f[0] == "par" and len(f) == 7 and g[0] == "rest":
+            if f[0] == "par" and len(f) == 8 and g[0] == "rest":
                 par["release=%s" % {"0": "channel", "1": "write-lock", "2": "read-lock"}.get(f[5], f[5])] += 1
                 par["with-concurrent-checks" if f[6] != "0" else "failures-only"] += 1
+                if f[7] != "0":
+                    par["observed-later"] += 1
+                if f[7] != "0" and f[6] != "0":
+                    par["checks-later-alongside"] += 1
                 par["refused-before" if g[1] == "0" and f[4] != "0" else ("blocked-after" if g[3] == "1" else "open-after")] += 1
     return dict(verdicts=_verdict_stats(cases, model), ops=dict(ops), impl_outcomes=dict(kinds), par=dict(par),
                 distinct_delays=len(delays), max_case_len=max(lens or [0]),
@@ -43,31 +48,33 @@ CONFIG = dict(
             "C17_delay_monotone_bounded", "C17_delay_no_overflow", "C17_block_iff_window", "C17_constants",
             "C17_spec_refused_iff", "C17_refused_records_nothing", "C17_spec_delay", "C17_independent",
             "C17_key_v6", "C17_key_raw", "C17_key_kinds", "C17_forgets", "C17_old_irrelevant",
-            "C17_atomicity_facts", "C17_concurrent_failures_all_recorded", "C17_concurrent_equals_sequential",
-            "C17_check_is_read_then_writeBack", "C17_stale_writeback_harmless",
-            "C17_concurrent_checks_harmless", "C17_concurrent_lost_update"]],
+            "C17_atomicity_facts", "C17_concurrent_no_record_lost", "C17_concurrent_failures_all_recorded",
+            "C17_concurrent_equals_sequential"]],
         generated=["Throttle"],
         harness=dict(pkg="signaling", test="TestVerifC17"),
+        # delays marked `D:` by both sides: their pairing with failure counts depends on the interleaving
+        canon=lambda s: re.sub(r" D:\S+", " D:*", s),
         stats=c17_stats,
         nontrivial=c17_nontrivial,
         rule="PRNG timelines of attempts (address pool of v4/v6-same-/64/v6-other/mapped/invalid strings x 3 actions, "
              "bursts, gaps around 30 min and 12 h, cleanups, occasional non-monotone clock and two-phase check/throttle, "
-             "'par' steps: n goroutines record failures of one address/kind at once, optionally with concurrent checks, "
-             "released by a channel or piled up at the throttler's mutex held by the harness, observed at rest: records, "
-             "blocked, sorted delays), scripted openings k sequential + n concurrent failures around the threshold of ten "
+             "'par' steps: n connections let through at t, then n goroutines record their failures at once while m "
+             "goroutines check further connections at t+dt, released by a channel or piled up at the throttler's mutex "
+             "held by the harness, observed at rest: records, blocked, sorted delays), scripted window cases (records "
+             "that expire between the check and the failures, checks alongside: the read-filter-write of "
+             "CheckBruteforce), scripted openings k sequential + n concurrent failures around the threshold of ten "
              "with random tails, plus all address pairs for key sharing; a case is non-trivial if the real throttler "
              "refused at least once, delayed at least three times or recorded at least two concurrent failures; "
              "distinct = distinct op lists",
         trusted_base=["net.ParseIP / IP.To4 / IP.To16 (address classification done by the harness with the standard library)",
                       "time.Time arithmetic modelled as unbounded Int nanoseconds (no saturation)"],
         assumptions=["critical sections of one sync.RWMutex are atomic with respect to each other (read-locked sections only "
-                     "read); which accesses lie in which section is regenerated from the source (C17_atomicity_facts): "
-                     "addEntry/throttle, cleanup, setEntries, getEntries are one section each, so every interleaving of "
-                     "concurrent failures equals a sequential order (C17_concurrent_failures_all_recorded)",
-                     "CheckBruteforce is two sections (read, later write-back of the pruned list): a failure recorded in "
-                     "between is lost iff the list read began with a record older than 12 h (C17_stale_writeback_harmless, "
-                     "witness C17_concurrent_lost_update) - property part 'including concurrent attempts' is partial for "
-                     "that window only",
+                     "read); which accesses lie in which section is regenerated from the source per control-flow path "
+                     "(C17_atomicity_facts): every function touching the table is one section per path and takes no "
+                     "entry list from outside, addEntry/throttle read and write in one write-locked section, "
+                     "CheckBruteforce = read-locked read + at most one self-contained write-locked section (pruneEntries); "
+                     "hence no interleaving of concurrent failures and checks loses a record "
+                     "(C17_concurrent_no_record_lost, C17_concurrent_failures_all_recorded)",
                      "C17_block_iff_window assumes a monotone clock and check+throttle not separated by another attempt of the same key/action"],
     )
 
@@ -76,14 +83,16 @@ MANIFEST = dict(
              "operators regenerated from the source: delay monotone and <= 25 s for every count incl. the 64-bit "
              "computation; for every history of whole attempts under a monotone clock the outcomes equal a counting "
              "spec that never forgets (refused iff >= 10 failures within 30 min; delay = f(#failures within 12 h)); "
-             "independence of keys/actions for every op sequence; forgetting after 12 h; every interleaving of the "
-             "critical sections of n concurrent failure recordings yields n records (sections regenerated from the "
-             "source per control-flow path). Tied to the code by facts extraction (constants, operators, lock "
+             "independence of keys/actions for every op sequence; forgetting after 12 h; in every interleaving of the "
+             "critical sections of any number of concurrent failure recordings and checks the entry list is the full "
+             "history minus a prefix of records some check found older than 12 h - no record is lost (sections "
+             "regenerated from the source per control-flow path). Tied to the code by facts extraction (constants, operators, lock "
              "sections, write-back guard) plus a differential run of the real memoryThrottler with injected clock, "
              "including goroutines recording failures at once, compared at rest.",
         note="Trusted: Lean kernel, extractor, harness/comparison, net.ParseIP; unbounded-Int time; mutex sections atomic. "
-             "The stale write-back inside CheckBruteforce (needs a record older than 12 h at the head of the list "
-             "read) is delimited by a theorem and exhibited as a proved witness (partial).",
+             "The stale write-back of CheckBruteforce (a failure recorded between its read and its pruned write-back "
+             "was lost) was reproduced on the real code and repaired in /repo 8fa3850; the split program survives "
+             "as a proved counter-example only.",
         technique="Lean 4 proof (refinement of the entry-list model to a counting spec by induction over op lists; "
                   "invariant over all schedules of the regenerated critical sections) + regenerated constants and "
                   "lock sections + differential correspondence with concurrent steps",
